@@ -902,7 +902,7 @@ fn free_callers_done(ctx: &RunCtx) -> bool {
     // caller threads that only work on free objects must finish while the holds are closed; threads that touch held objects may be blocked
     let mut needed = 0; let mut total_free = 0;
     for acts in ctx.prog.threads.iter() {
-        let touches_held = acts.iter().any(|a| match a { TAct::Op(o) | TAct::Join(o) => ctx.prog.held_objs.contains(&ctx.prog.ops[*o].obj) || ctx.prog.ops[*o].body.iter().any(|s| matches!(s, Step::Hold(_))), TAct::WaitStart(_) | TAct::WaitRet(_) => true, _ => false });
+        let touches_held = acts.iter().any(|a| match a { TAct::Op(o) | TAct::Join(o) => ctx.prog.held_objs.contains(&ctx.prog.ops[*o].obj) || ctx.prog.ops[*o].body.iter().any(|s| matches!(s, Step::Hold(_))), TAct::WaitStart(_) | TAct::WaitRet(_) | TAct::WaitInv(_) | TAct::WaitResolved(_) => true, _ => false });
         if !touches_held { total_free += 1; }
     }
     needed += total_free;
@@ -1037,7 +1037,16 @@ fn diagnose(ctx: &Arc<RunCtx>, objects: &[Option<Arc<Obj>>], snap: &[quiesce::Th
         let def = &prog.ops[subject];
         let st = state_of(&states, def.obj);
         let prop: &'static str = match (phase, def.kind) {
-            (PH_CALL, Kind::Sync) => { sync_blocked_on.push(def.obj); "C04" }
+            (PH_CALL, Kind::Sync) => {
+                sync_blocked_on.push(def.obj);
+                // a sync call made while the object was suspended is held work: once the resumer has been used or dropped it has to run
+                let inv = ctx.recs[subject].inv.load(ORD);
+                if prog.ops.iter().enumerate().any(|(i, d)| d.kind == Kind::Suspend && d.obj == def.obj && ctx.resume_stamp[i].load(ORD) != 0 && ctx.recs[i].resolve.load(ORD) != 0 && ctx.recs[i].resolve.load(ORD) < inv) {
+                    found.push(("C13", "work_held_after_resume".into(), format!("sync_during_suspension_stuck:{}:{}", st, pool_cond(ctx)),
+                        format!("op {} (sync on object {}) was called while the object was suspended; the resumer has been used or dropped and all threads are quiet, but the call never returned; queue state {}", subject, def.obj, st)));
+                }
+                "C04"
+            }
             (PH_CALL, Kind::TrySync) => "C09",
             (PH_CALL, Kind::Desync) => "C03",
             (PH_CALL, Kind::Suspend) | (PH_AWAIT, Kind::Suspend) | (PH_RESUME, _) => "C13",
